@@ -41,6 +41,7 @@ def units(tier, seed):
     for i in range(0, len(names), 6):
         us.append(('catalogue', i, min(len(names), i + 6), tier))
     us.append(('override',))
+    us.append(('named',))
     return us
 
 
@@ -79,6 +80,40 @@ def run_unit(unit, drv, res, seed, tier):
                               expected={"method": fmt_outcome(om)}, observed={"global": fmt_outcome(og)})
         res.exhaustive_done['builtins-x-pool-both-styles'] = True
         res.sample({"method": cases[10]["src"], "global": cases[11]["src"], "vars": cases[10]["vars"]}, cap=1)
+    elif kind == 'named':
+        # receivers that contain the called function's own name (as a map key, a nested key, an element, the
+        # text itself): the call still goes to the function, in both styles
+        cases, meta = [], []
+        fns = [(f, n) for f, n in THIS_BUILTINS] + [("m0_v", 0), ("m0_s", 0), ("m1_vv", 1), ("ma", 0)]
+        for f, nargs in fns:
+            others = [g for g, _ in fns if g != f][:3]
+            recvs = [M([(S(f), I(7))]), M([(S(f), S("x")), (S("b"), I(2))]), M([(S(others[0]), I(1))]), M([(S(f), M([(S(f), I(1))]))]),
+                     L([S(f)]), S(f), M([(S(f), L([I(1), I(2)]))]), M([(S(f), NULL)]), M([(S(g), I(i)) for i, g in enumerate([f] + others)])]
+            for x in recvs:
+                argsets = [[]] if nargs == 0 else [[S(f)], [S("b")], [x]]
+                for args in argsets:
+                    vs = [("x", x)] + [("a%d" % i, a) for i, a in enumerate(args)]
+                    an = ", ".join("a%d" % i for i in range(len(args)))
+                    cases.append(exec_case(len(cases), "x.%s(%s)" % (f, an), vs))
+                    cases.append(exec_case(len(cases), "%s(x%s)" % (f, (", " + an) if an else ""), vs))
+                    meta.append((f, len(args)))
+        out = drv.run(cases, 'named')
+        for k, (f, nargs) in enumerate(meta):
+            cm, cg = cases[2 * k], cases[2 * k + 1]
+            om, og = top_outcome(out[2 * k]), top_outcome(out[2 * k + 1])
+            res.evaluations += 2
+            res.nt(cm["src"] + str(cm["vars"]))
+            res.count("named:" + f)
+            for o, c in ((om, cm), (og, cg)):
+                if is_crash(o):
+                    res.violation(o[0], 'call on a receiver naming the function', crash_sig(o), c, observed=list(o))
+            if is_crash(om) or is_crash(og):
+                continue
+            same = (om[0] == 'ok' and og[0] == 'ok' and struct_eq(om[1], og[1])) or (om[0] == 'err' and og[0] == 'err' and om[1] == og[1])
+            if not same:
+                res.violation('styles-differ', 'call on a receiver naming the function', 'x.f(args) and f(x, args) disagree', [cm, cg],
+                              expected={"method": fmt_outcome(om)}, observed={"global": fmt_outcome(og)})
+        res.exhaustive_done['receivers-naming-the-function'] = True
     elif kind == 'catalogue':
         names = (sorted(CATALOGUE) + ['va', 'va0', 'ma', 'ex1', 'ex0', 'id1', 'id2', 'vid', 'p2_iv', 'p3_ivi', 'p3_ssv'])[unit[1]:unit[2]]
         items = []
